@@ -13,7 +13,7 @@ API = "phonopy/api_phonopy.py"
 
 
 def run(rep: core.Report):
-    rep.rule("R09a", "weights account for every grid point by construction: one increment per entry of the mapping table, selected by the set of values of the same table", 3)
+    rep.rule("R09a", "weights account for every grid point by construction: one increment per entry of the mapping table, selected by the set of values of the same table", 1)
     rep.rule("R09b", "coupled flags: wherever mesh symmetry is switched off, time reversal handed to the symmetry library is off as well (GridPoints constructor paths, MeshBase callers)", 3)
     rep.rule("R09c", "the same point-group rotations reach stored and iterated meshes; the symmetry library receives them untransposed and the lattice-equivalence test their transposes", 3)
     rep.rule("R09d", "every consumer of a mesh weights its sum by the multiplicity of the same q-point and normalises by the sum of weights; consumers that need an unreduced mesh test for it before they start", 8)
@@ -26,27 +26,81 @@ def run(rep: core.Report):
 
 
 def _r09a(rep):
+    """Multiset reading of extract_ir_grid_points: TABLE (the mapping table), UNIQ (its distinct values, sorted),
+    FULL (multiplicity of every value, indexed by value), CNT (multiplicities aligned with UNIQ)."""
     fn = core.find_def(GP, "extract_ir_grid_points")
-    loops = [n for n in ast.walk(fn) if isinstance(n, ast.For)]
-    ok_loop = False
-    for lp in loops:
-        if core.src(lp.iter) == "grid_mapping_table" and isinstance(lp.target, ast.Name):
-            v = lp.target.id
-            body = [core.src(s) for s in lp.body]
-            ok_loop = body == [f"weights[{v}] += 1"]
-    rep.instance("R09a", GP, "extract_ir_grid_points", "for gp in grid_mapping_table: weights[gp] += 1", ok_loop,
-                 "the weight accumulation no longer adds exactly one per grid point of the whole mapping table: sum(weights) != number of grid points", line=fn.lineno)
-    tr = symalg.OpenPyTranslator(where="extract_ir_grid_points")
-    env = tr.summary(fn)
-    irg = env.get("ir_grid_points")
-    ok_sel = irg is not None and symalg.same(irg, symalg.open_expr("np.array(np.unique(grid_mapping_table), dtype=grid_mapping_table.dtype)"))[0]
-    rep.instance("R09a", GP, "extract_ir_grid_points", "ir_grid_points = unique values of the same table", ok_sel, "the irreducible points are not the set of values of the mapping table", line=fn.lineno)
-    w = env.get("ir_weights")
-    want = tr.expr(ast.parse("weights[ir_grid_points]", mode="eval").body, env)
-    ok_w = w is not None and (w == want or (getattr(w, "args", None) and w.args[0] == want))
-    rets = [core.src(r.value) for r in ast.walk(fn) if isinstance(r, ast.Return)]
-    rep.instance("R09a", GP, "extract_ir_grid_points", f"ir_weights = weights[ir_grid_points]; return {rets}", ok_w and rets == ["(ir_grid_points, ir_weights)"],
-                 "the returned weights are not the accumulated counts at the irreducible points (in the same order)", line=fn.lineno)
+    table = fn.args.args[0].arg
+    env = {table: "TABLE"}
+    notes = []
+
+    def ty(e):
+        if isinstance(e, ast.Name):
+            return env.get(e.id)
+        if isinstance(e, ast.Call):
+            f = core.src(e.func)
+            a0 = ty(e.args[0]) if e.args else None
+            kw = {k.arg: k.value for k in e.keywords}
+            if f in ("np.array", "np.asarray", "np.ascontiguousarray") or (isinstance(e.func, ast.Attribute) and e.func.attr in ("astype", "copy")):
+                return a0 if f.startswith("np.") else ty(e.func.value)
+            if f == "np.unique" and a0 == "TABLE":
+                if isinstance(kw.get("return_counts"), ast.Constant) and kw["return_counts"].value is True and len(kw) == 1:
+                    return ("UNIQ", "CNT")
+                if not kw:
+                    return "UNIQ"
+                return None
+            if f in ("np.zeros_like", "np.zeros") and e.args:
+                t = core.src(e.args[0])
+                if a0 == "TABLE" or t in (f"len({table})", f"{table}.shape", f"{table}.shape[0]", f"({table}.shape[0],)", f"{table}.size"):
+                    return "ZERO"
+                return None
+            if f == "np.bincount" and a0 == "TABLE":
+                return "FULL"
+            return None
+        if isinstance(e, ast.Subscript):
+            if ty(e.value) == "FULL" and ty(e.slice) == "UNIQ":
+                return "CNT"
+            return None
+        if isinstance(e, ast.Attribute):
+            return None
+        return None
+
+    for st in fn.body:
+        if isinstance(st, ast.Assign):
+            v = ty(st.value)
+            t = st.targets[0]
+            if isinstance(t, ast.Name) and isinstance(v, str):
+                env[t.id] = v
+            elif isinstance(t, ast.Tuple) and isinstance(v, tuple) and len(t.elts) == len(v):
+                for nm, x in zip(t.elts, v):
+                    if isinstance(nm, ast.Name):
+                        env[nm.id] = x
+        elif isinstance(st, ast.For) and isinstance(st.target, ast.Name):
+            it = ty(st.iter)
+            v = st.target.id
+            for b_ in st.body:
+                if isinstance(b_, ast.AugAssign) and isinstance(b_.op, ast.Add) and isinstance(b_.target, ast.Subscript) and core.src(b_.target.slice) == v and isinstance(b_.value, ast.Constant) and b_.value.value == 1 and ty(b_.target.value) == "ZERO":
+                    nm = core.src(b_.target.value)
+                    if it == "TABLE":
+                        env[nm] = "FULL"
+                    else:
+                        env[nm] = "WRONG"
+                        notes.append((st, f"the counter is incremented once per element of '{core.src(st.iter)}', not once per grid point of the whole mapping table"))
+        elif isinstance(st, ast.Expr) and isinstance(st.value, ast.Call) and core.src(st.value.func) == "np.add.at" and len(st.value.args) == 3:
+            w, idx, one = st.value.args
+            if ty(w) == "ZERO" and isinstance(one, ast.Constant) and one.value == 1:
+                env[core.src(w)] = "FULL" if ty(idx) == "TABLE" else "WRONG"
+    rets = [r for r in ast.walk(fn) if isinstance(r, ast.Return) and isinstance(r.value, ast.Tuple) and len(r.value.elts) == 2]
+    if len(rets) != 1:
+        raise AnalysisError("R09a: extract_ir_grid_points no longer returns (ir_grid_points, weights)")
+    r0, r1 = (ty(x) for x in rets[0].value.elts)
+    if "WRONG" in env.values():
+        rep.instance("R09a", GP, "extract_ir_grid_points", core.norm(core.src(notes[0][0]), 70), False, notes[0][1] + ": sum(weights) != number of grid points", line=notes[0][0].lineno)
+        return
+    if r0 is None or r1 is None:
+        raise AnalysisError(f"R09a: the construction of the returned (points, weights) = ({r0}, {r1}) is not one of the modelled forms (loop / np.add.at / bincount / unique(return_counts))")
+    rep.instance("R09a", GP, "extract_ir_grid_points", "every grid point of the mapping table is counted exactly once", r1 in ("CNT",), "the weights are not the multiplicities of the values of the mapping table", line=fn.lineno)
+    rep.instance("R09a", GP, "extract_ir_grid_points", "ir_grid_points = distinct values of the same table", r0 == "UNIQ", "the irreducible points are not the set of values of the mapping table", line=fn.lineno)
+    rep.instance("R09a", GP, "extract_ir_grid_points", f"returns ({r0}, {r1}): weights aligned with the irreducible points", (r0, r1) == ("UNIQ", "CNT"), "the returned weights are not the accumulated counts at the irreducible points (in the same order)", line=fn.lineno)
 
 
 def _r09b(rep):
@@ -99,14 +153,50 @@ def _r09c(rep):
                  "stored and iterated meshes receive different rotations", line=im.lineno)
     si = core.find_def(GP, "GridPoints._set_ir_qpoints")
     calls = [c for c in ast.walk(si) if isinstance(c, ast.Call) and core.src(c.func).endswith("get_stabilized_reciprocal_mesh")]
-    ok = bool(calls) and core.src(calls[0].args[1]) == "rotations" and {k.arg: core.src(k.value) for k in calls[0].keywords}.get("is_shift") == "self._is_shift"
-    rep.instance("R09c", GP, "GridPoints._set_ir_qpoints", core.norm(core.src(calls[0]), 100) if calls else "<vanished>", ok,
+    if not calls:
+        raise AnalysisError("R09c: call of get_stabilized_reciprocal_mesh vanished")
+    c0 = calls[0]
+    kws = {k.arg: k.value for k in c0.keywords}
+    rot_arg = c0.args[1] if len(c0.args) > 1 else kws.get("rotations")
+    ok = rot_arg is not None and _orientation(rot_arg, "rotations") == "as-is" and core.src(kws.get("is_shift")) == "self._is_shift" if kws.get("is_shift") is not None else False
+    rep.instance("R09c", GP, "GridPoints._set_ir_qpoints", core.norm(core.src(c0), 100), ok,
                  "the symmetry library does not receive the rotations as given (real-space, untransposed) together with the object's shift", line=si.lineno)
     hs = core.find_def(GP, "GridPoints._has_mesh_symmetry")
-    t = [core.src(c) for c in ast.walk(hs) if isinstance(c, ast.Call) and core.src(c.func) == "get_lattice_vector_equivalence"]
-    rep.instance("R09c", GP, "GridPoints._has_mesh_symmetry", t[0] if t else "<vanished>", t == ["get_lattice_vector_equivalence([r.T for r in self._rotations])"],
+    eqc = [c for c in ast.walk(hs) if isinstance(c, ast.Call) and core.src(c.func) == "get_lattice_vector_equivalence" and c.args]
+    if not eqc:
+        raise AnalysisError("R09c: call of get_lattice_vector_equivalence vanished")
+    o = _orientation(eqc[0].args[0], "self._rotations")
+    if o is None:
+        rep.unknown(f"R09c: orientation of {core.src(eqc[0].args[0])} not recognised")
+    rep.instance("R09c", GP, "GridPoints._has_mesh_symmetry", core.src(eqc[0]), o in ("transposed", None),
                  "the lattice-vector equivalence test no longer receives the transposed (reciprocal-space) rotations", line=hs.lineno)
     _r09f(rep, hs)
+
+
+def _orientation(e, source):
+    """'as-is' | 'transposed' | None for an expression built from the rotation stack `source`."""
+    t = core.src(e)
+    if t == source:
+        return "as-is"
+    if isinstance(e, ast.Call) and core.src(e.func) in ("np.array", "np.asarray", "list") and e.args:
+        return _orientation(e.args[0], source)
+    if isinstance(e, ast.ListComp) and len(e.generators) == 1 and isinstance(e.generators[0].target, ast.Name) and _orientation(e.generators[0].iter, source) == "as-is":
+        v = e.generators[0].target.id
+        el = core.src(e.elt)
+        if el == v:
+            return "as-is"
+        if el in (f"{v}.T", f"np.transpose({v})", f"{v}.transpose()"):
+            return "transposed"
+        return None
+    if isinstance(e, ast.Call):
+        f = core.src(e.func)
+        if f == "np.transpose" and len(e.args) == 2 and core.src(e.args[1]).replace(" ", "") in ("(0,2,1)", "[0,2,1]"):
+            return {"as-is": "transposed", "transposed": "as-is"}.get(_orientation(e.args[0], source))
+        if isinstance(e.func, ast.Attribute) and e.func.attr in ("transpose", "swapaxes"):
+            args = [core.src(a) for a in e.args]
+            if (e.func.attr == "transpose" and args in (["0", "2", "1"], ["(0, 2, 1)"])) or (e.func.attr == "swapaxes" and sorted(args) in (["1", "2"], ["-1", "-2"])):
+                return {"as-is": "transposed", "transposed": "as-is"}.get(_orientation(e.func.value, source))
+    return None
 
 
 PAIRS = [frozenset((1, 2)), frozenset((2, 0)), frozenset((0, 1))]  # order of get_lattice_vector_equivalence: (b==c, c==a, a==b)
@@ -300,5 +390,9 @@ def selftest():
     b("shift flags not compared", GP, "            m[1] == m[2] and s[1] == s[2],", "            m[1] == m[2],", "R09f", "half-shift")
     b("mesh pair order rotated", GP, "            m[1] == m[2] and s[1] == s[2],\n            m[2] == m[0] and s[2] == s[0],\n            m[0] == m[1] and s[0] == s[1],", "            m[0] == m[1] and s[0] == s[1],\n            m[1] == m[2] and s[1] == s[2],\n            m[2] == m[0] and s[2] == s[0],", "R09f", "mesh numbers")
     n("compatibility via logical_and", GP, "        mesh_equiv = [\n            m[1] == m[2] and s[1] == s[2],\n            m[2] == m[0] and s[2] == s[0],\n            m[0] == m[1] and s[0] == s[1],\n        ]", "        mesh_equiv = np.logical_and([m[1] == m[2], m[2] == m[0], m[0] == m[1]], [s[1] == s[2], s[2] == s[0], s[0] == s[1]])")
+    n("lattice equivalence through a stacked transpose", GP, "get_lattice_vector_equivalence([r.T for r in self._rotations])", "get_lattice_vector_equivalence(np.transpose(self._rotations, (0, 2, 1)))")
+    b("symmetry library receives transposed rotations", GP, "            self._mesh,\n            rotations,\n            is_shift=self._is_shift,", "            self._mesh,\n            [r.T for r in rotations],\n            is_shift=self._is_shift,", "R09c", "_set_ir_qpoints")
+    n("weights by bincount", GP, "    weights = np.zeros_like(grid_mapping_table)\n    for gp in grid_mapping_table:\n        weights[gp] += 1\n", "    weights = np.bincount(grid_mapping_table, minlength=len(grid_mapping_table))\n")
+    n("weights by unique(return_counts)", GP, "    ir_grid_points = np.array(np.unique(grid_mapping_table), dtype=dtype)\n    weights = np.zeros_like(grid_mapping_table)\n    for gp in grid_mapping_table:\n        weights[gp] += 1\n    ir_weights = np.array(weights[ir_grid_points], dtype=dtype)", "    ir_grid_points, ir_weights = np.unique(grid_mapping_table, return_counts=True)\n    ir_grid_points = np.array(ir_grid_points, dtype=dtype)\n    ir_weights = np.array(ir_weights, dtype=dtype)")
     b("lattice equivalence with untransposed rotations", GP, "get_lattice_vector_equivalence([r.T for r in self._rotations])", "get_lattice_vector_equivalence([r for r in self._rotations])", "R09c", "_has_mesh_symmetry")
     return V
